@@ -47,7 +47,7 @@ class Ctx:
         f = self.match_finding(facts or {}) if found_input else None
         if f is not None:
             if f['id'] not in [k[0] for k in self.known]:
-                self.known.append((f['id'], f.get('what', what)))
+                self.known.append((f['id'], f.get('line') or f.get('what', what)))
             return False
         self.violations.append((what, payload, found_input))
         return True
